@@ -1,4 +1,5 @@
 """C20 — a term's meaning does not depend on where it is written (the structural clause only)."""
+import re
 from sym import Walker, strip, show, mentions, TooManyPaths
 from cfg import BodyCfg
 
@@ -11,11 +12,17 @@ EXPLANATION = ("One structural necessary condition of C20, decided by finite-dom
                "of that kind sets the flag (always / never / depending on its neighbours): if one scanner treats `-` as part "
                "of a number and another as a non-digit, `-5` is an integer in one context and an atom in another. Also: "
                "integer and float literals are converted (`str::parse`) only inside the term constructor. Decides these "
-               "tables, not the equality of the parsers on every text (quotes, escapes, infix detection are not decided).")
+               "tables, not the equality of the parsers on every text (quotes and escapes are not decided). A second structural "
+               "clause (R5): when one scanner builds a term itself behind a detector function that the constructor does not reach "
+               "(today: parse_term builds add / subtract / multiply / divide behind check_arithmetic_infix), every other scanner "
+               "builds it too or goes through that scanner; decided on the call graph and the dominator tree, not on texts.")
 RULES = ("R1 inventory: the term constructor K (crate function taking a text and boolean classification flags) and the "
          "scanners that call it; R2 for every scanner pair, flag and character class: the effect of a first character of that "
          "class on the flag (always / never / depends) is the same; R3 `str::parse::<i64|f64>` only inside K; R4 a scanner that walks "
-         "the characters of a text hands that same view of the text (not a differently trimmed one) to the constructor")
+         "the characters of a text hands that same view of the text (not a differently trimmed one) to the constructor; "
+         "R5 for every scanner A, Unifiable variant V built in A's own body and detector D (crate function returning a crate "
+         "enum, not reachable from K except through a scanner, whose call dominates the aggregate): every other scanner B "
+         "builds V behind D, reaches D, or reaches A, without going through K")
 TRUSTED = ["rustc nightly MIR construction",
            "the table is taken for the first and for the second character of a text (scanner state as initialised: no open quote, depth 0); "
            "conditions on neighbouring characters count as `depends`"]
@@ -560,6 +567,54 @@ def run(ctx):
         if n4:
             ctx.ob("R4", "scans-the-text-it-hands-on(%s)" % g.npath, ok4, ctx.where(g), why4 or
                    "the scanned text and the text handed to the constructor are the same view of the input (%d call(s))" % n4)
+    # ---- R5: a term a scanner builds itself behind a detector, every scanner builds ---------------------------------------
+    from callgraph import CallGraph
+    from cfg import BodyCfg
+    cg = CallGraph(prog, crates=["suiron-lib"])
+    reachK = cg.reach([K], avoid=set(scanners))      # what the constructor does with its own text (not with nested texts it hands back to a scanner)
+    own = {}
+    for gp, (g, kind, handles, names) in sorted(scanners.items()):
+        G = BodyCfg(g)
+        gate_blocks = {}
+        for i, t in g.calls():
+            nm = t["callee"].get("resolved") or t["callee"].get("path") or ""
+            H = by_path.get(nm)
+            if H is None or nm in reachK or nm in scanners:
+                continue
+            rty = H.locals[0]["s"]
+            if "Unifiable" in rty or "Result<" in rty or "Option<" in rty or rty in ("()", "bool", "usize", "std::string::String"):
+                continue
+            if not any(("::" in w and not w.startswith(("std::", "core::", "alloc::"))) for w in re.findall(r"[A-Za-z_][A-Za-z_0-9:]*", rty)):
+                continue
+            gate_blocks.setdefault(nm, []).append(i)
+        built = {}
+        for i, blk in enumerate(g.blocks):
+            if blk.get("cleanup"):
+                continue
+            for s_ in blk["stmts"]:
+                if s_["k"] == "assign" and s_["rv"]["k"] == "aggregate" and str(s_["rv"].get("adt", "")).endswith("unifiable::Unifiable"):
+                    for nm, bbs in gate_blocks.items():
+                        if any(G.dom(bb, i) for bb in bbs):
+                            built.setdefault(s_["rv"]["variant"], set()).add(nm)
+        own[gp] = built
+    n5 = 0
+    for ga, built in sorted(own.items()):
+        for v, gates in sorted(built.items()):
+            for gb in sorted(own):
+                if gb == ga:
+                    continue
+                n5 += 1
+                rb = cg.reach([gb], avoid={K})
+                covered = v in own[gb] or ga in rb or any(x in rb for x in gates)
+                gl = "|".join(sorted(x.split("::")[-1] for x in gates))
+                ctx.ob("R5", "own-production(%s via %s) also in %s" % (v, gl, by_path[gb].npath), covered, ctx.where(by_path[gb]),
+                       "%s builds a %s term itself after consulting %s, which the constructor %s never reaches; %s" % (
+                           by_path[ga].npath, v, gl, KB.npath,
+                           ("%s does the same, or goes through it" % by_path[gb].npath) if covered else
+                           ("%s neither consults it nor goes through %s: a text that detector accepts means a different term there" % (
+                               by_path[gb].npath, by_path[ga].npath))))
+    if not n5:
+        ctx.ob("R5", "own-production", True, ctx.where(KB), "not evaluated: no scanner builds a term itself behind a detector the constructor does not reach")
     # ---- R3: number conversion only in the constructor -------------------------------------------------------------------
     bad = None
     n = 0
